@@ -19,11 +19,21 @@ fn fnv(s: &str) -> String {
 fn load_digest(bytes: &[u8]) -> (String, String, Vec<u32>) {
     let r = guarded(|| Document::load_mem(bytes));
     let obs = lopdf::verif_hooks::observed_completion_order();
+    LATE.with(|l| *l.borrow_mut() = lopdf::verif_hooks::observed_deferred_order());
     match r {
         Ok(Ok(d)) => ("ok".into(), fnv(&doc_to_json(&d).to_string()), obs),
         Ok(Err(e)) => (format!("err:{e:?}"), "-".into(), obs),
         Err(p) => (format!("panic:{p}"), "-".into(), obs),
     }
+}
+
+thread_local! {
+    /// deferred streams (hook H2) of the last load_digest call on this thread, in the order the workers pushed them
+    static LATE: std::cell::RefCell<Vec<u32>> = const { std::cell::RefCell::new(Vec::new()) };
+}
+
+fn late() -> Vec<u32> {
+    LATE.with(|l| l.borrow().clone())
 }
 
 fn main() {
@@ -43,12 +53,21 @@ fn main() {
         let (res, hash, obs) = load_digest(&bytes);
         let mut containers = obs.clone();
         containers.sort();
-        out.put(&json!({"file": i, "kind": "base", "res": res, "hash": hash, "observed": obs, "containers": containers}));
+        out.put(&json!({"file": i, "kind": "base", "late": late(), "res": res, "hash": hash, "observed": obs, "containers": containers}));
         for (k, pool) in &pools {
             for rep in 0..reps {
                 let (res, hash, obs) = pool.install(|| load_digest(&bytes));
                 out.put(&json!({"file": i, "kind": "pool", "threads": k, "rep": rep, "res": res, "hash": hash, "observed": obs, "containers": containers}));
             }
+        }
+        // (H2) the streams filled in after the merge, forced into ascending and into descending order
+        if late().len() >= 2 {
+            for asc in [true, false] {
+                lopdf::verif_hooks::force_deferred_order(Some(asc));
+                let (res, hash, obs) = load_digest(&bytes);
+                out.put(&json!({"file": i, "kind": "defer", "asc": asc, "late": late(), "res": res, "hash": hash, "observed": obs, "containers": containers}));
+            }
+            lopdf::verif_hooks::force_deferred_order(None);
         }
         let n = containers.len();
         if n >= 2 && n <= max_perm_n {
@@ -113,8 +132,9 @@ fn main() {
             Ok(Ok(d)) => d,
             _ => continue,
         };
+        let deferred = !lopdf::verif_hooks::observed_deferred_order().is_empty();
         for k in 0..flt::NFILTERS {
-            let exp = match flt::expectation(&plain, k) {
+            let exp = match flt::expectation(&plain, k, deferred) {
                 Some(e) => e,
                 None => continue,
             };
